@@ -47,10 +47,11 @@ const (
 	SendRefuse         // transport answered "not delivered" (success=false)
 	SendError          // transport answered with an error
 	CommitFail         // every statement succeeds but the COMMIT fails (SQLite rolls back)
+	Late               // executed now, the completion reaches the coroutine with the NEXT tick (whatever causes it: another completion, a clock step, a sweep)
 )
 
 func (o Outcome) String() string {
-	return [...]string{"ok", "fail-before", "fail-after", "send-refused", "send-error", "commit-fails"}[o]
+	return [...]string{"ok", "fail-before", "fail-after", "send-refused", "send-error", "commit-fails", "ok-delivered-with-the-next-tick"}[o]
 }
 
 var BackgroundNames = []string{"TimeoutPromises", "SchedulePromises", "TimeoutLocks", "EnqueueTasks", "TimeoutTasks"}
@@ -306,6 +307,9 @@ type World struct {
 	Log      []string
 	KeepLog  bool
 	PreCrash *Dump // database as it stood when the server was killed
+
+	lateNow  bool
+	lateHist []lateEntry
 
 	metrics *metrics.Metrics
 	api     api.API
@@ -642,7 +646,21 @@ func (w *World) Dump() *Dump {
 func (w *World) Pending() []*Pending { return w.aio.pending }
 
 // Tick runs the real kernel until it blocks.
-func (w *World) Tick() { w.sys.Tick(w.Clock) }
+func (w *World) Tick() {
+	for _, l := range w.lateHist {
+		if h := w.hist[l.owner]; l.idx < len(h) {
+			h[l.idx] = short(l.digest + fmt.Sprintf("@%d", w.Clock))
+		}
+	}
+	w.lateHist = nil
+	w.sys.Tick(w.Clock)
+}
+
+type lateEntry struct {
+	owner  string
+	idx    int
+	digest string
+}
 
 // Submit hands a request to the real api queue and ticks.
 func (w *World) Submit(client int, idx int, req *t_api.Request) *Req {
@@ -703,7 +721,13 @@ func (w *World) deliver(p *Pending, cqe *bus.CQE[t_aio.Submission, t_aio.Complet
 	// (submission, completion, clock of delivery). The order of deliveries is not
 	// part of a coroutine's state: it awaits specific promises in program order and
 	// observes, per completion, only its value and the tick time at which it resumes.
-	w.hist[p.Owner] = append(w.hist[p.Owner], short(p.Digest+">"+complDigest(cqe.Completion, cqe.Error)+fmt.Sprintf("@%d", w.Clock)))
+	if w.lateNow {
+		// the delivery clock is that of the next tick: filled in by Tick
+		w.lateHist = append(w.lateHist, lateEntry{p.Owner, len(w.hist[p.Owner]), p.Digest + ">" + complDigest(cqe.Completion, cqe.Error)})
+		w.hist[p.Owner] = append(w.hist[p.Owner], "late")
+	} else {
+		w.hist[p.Owner] = append(w.hist[p.Owner], short(p.Digest+">"+complDigest(cqe.Completion, cqe.Error)+fmt.Sprintf("@%d", w.Clock)))
+	}
 	w.aio.cqes = append(w.aio.cqes, cqe)
 }
 
@@ -821,6 +845,7 @@ func (w *World) ExecBatch(idxs []int, o Outcome) {
 	if o == CommitFail {
 		w.arm(0)
 	}
+	w.lateNow = o == Late
 	ev.After = w.Dump()
 	if len(cqes) != len(sqes) {
 		panic("verif: store.Process returned a different number of completions")
@@ -850,6 +875,10 @@ func (w *World) ExecBatch(idxs []int, o Outcome) {
 			c = &bus.CQE[t_aio.Submission, t_aio.Completion]{Id: c.Id, Callback: c.Callback, Error: errors.New("verif: injected store failure after commit")}
 		}
 		w.deliver(p, c)
+	}
+	w.lateNow = false
+	if o == Late {
+		return // the completions wait in the completion queue for the next tick
 	}
 	w.Tick()
 }
@@ -897,6 +926,7 @@ func (w *World) drain(sys *system.System, a *ctlAIO) {
 func (w *World) Crash() {
 	w.Step++
 	w.logf("crash")
+	w.lateHist = nil
 	w.PreCrash = w.Dump()
 	for _, r := range w.Reqs {
 		if !r.Done && !r.Lost {
@@ -930,6 +960,9 @@ func (w *World) Crash() {
 
 // Quiesce executes pending submissions oldest first, all OK, until none is left.
 func (w *World) Quiesce() {
+	if len(w.aio.cqes) > 0 {
+		w.Tick()
+	}
 	for i := 0; len(w.aio.pending) > 0; i++ {
 		if i > 3000 {
 			panic("verif: quiesce did not terminate (a request or sweep keeps issuing submissions)")
@@ -988,6 +1021,10 @@ func (w *World) Key(withResponses bool, orderedPending bool) string {
 	live := map[string]bool{}
 	for _, p := range w.aio.pending {
 		live[p.Owner] = true
+	}
+	for _, l := range w.lateHist {
+		live[l.owner] = true
+		fmt.Fprintf(&b, "undelivered %s %s\n", l.owner, short(l.digest))
 	}
 	owners := make([]string, 0, len(live))
 	for o := range live {
